@@ -50,6 +50,43 @@ pub mod verif_fuel {
         EXHAUSTED.with(|e| e.get())
     }
 
+    thread_local! {
+        static DEPTH: Cell<usize> = Cell::new(0);
+        static DEPTH_LIMIT: Cell<usize> = Cell::new(usize::MAX);
+        static DEPTH_EXCEEDED: Cell<bool> = Cell::new(false);
+    }
+
+    /// Limits how deep `run_instruction` may nest on this thread (nested evaluation by commands).
+    pub fn set_depth_limit(limit: usize) {
+        DEPTH_LIMIT.with(|l| l.set(limit));
+        DEPTH_EXCEEDED.with(|e| e.set(false));
+    }
+
+    /// True if the nesting limit was hit since the last `set_depth_limit`.
+    pub fn depth_exceeded() -> bool {
+        DEPTH_EXCEEDED.with(|e| e.get())
+    }
+
+    /// Decrements the nesting depth when dropped.
+    pub(crate) struct DepthGuard;
+
+    impl Drop for DepthGuard {
+        fn drop(&mut self) {
+            DEPTH.with(|d| d.set(d.get() - 1));
+        }
+    }
+
+    pub(crate) fn enter() -> Option<DepthGuard> {
+        let depth = DEPTH.with(|d| d.get());
+        if depth >= DEPTH_LIMIT.with(|l| l.get()) {
+            DEPTH_EXCEEDED.with(|e| e.set(true));
+            None
+        } else {
+            DEPTH.with(|d| d.set(depth + 1));
+            Some(DepthGuard)
+        }
+    }
+
     pub(crate) fn consume() -> bool {
         let remaining = REMAINING.with(|r| r.get());
         if remaining == 0 {
@@ -356,6 +393,16 @@ pub fn run_instruction(
             None,
         );
     }
+    #[cfg(duckscript_verif)]
+    let _verif_depth_guard = match verif_fuel::enter() {
+        Some(guard) => guard,
+        None => {
+            return (
+                CommandResult::Crash("verif: nesting limit exceeded".to_string()),
+                None,
+            )
+        }
+    };
 
     let mut output_variable = None;
     let command_result = match instruction.instruction_type {
